@@ -3,10 +3,10 @@ package main
 // C13 — merging and charting count every stored report exactly once (structural part).
 
 import (
-	"os"
 	"fmt"
 	"go/token"
 	"go/types"
+	"os"
 	"strings"
 
 	"golang.org/x/tools/go/ssa"
